@@ -188,6 +188,35 @@ def run(ctx):
     if 'http_part' in globals():
         http_part(ctx)
     uptime_part(ctx)
+    peer_mss_part(ctx)
+
+
+def peer_mss_part(ctx):
+    """fingerprint_tcp with the peer's MSS (syn_mss) handed in, against mss*N / mtu*N records: every small value (0..24: a
+    candidate divisor of 0 or below), windows nothing divides - a result or PacketError, never another exception"""
+    import struct
+    from .. import core
+    r = ctx.rng
+    hx = lambda s: s.encode().hex()
+    ops = []
+    for _ in range(ctx.n(4000, 80000)):
+        ver = r.choice([4, 6])
+        mss = r.choice([100, 536, 1400, 1460, 99, 0, 65535, r.randrange(65536)])
+        syn = r.choice(list(range(0, 25)) + [65535, 1460, mss])
+        win = r.choice([0, 1, 7, 11, 13, 4099, 65535, r.randrange(65536)])
+        opts = b"\x02\x04" + struct.pack("!H", mss)
+        tcp = wiregen.tcp_header(r, flags=r.choice([0x12, 0x12, 0x02]), opts=opts, payload=b"", seq=7, ack=9, urp=0, win=win, res=0)
+        raw = wiregen.ipv4(r, tcp, ipopts=b"", tos=0, ident=1, fl=2, ttl=64) if ver == 4 else wiregen.ipv6(r, tcp, tc=0, fl=0, hlim=64)
+        sec = "response" if tcp[13] & 0x10 else "request"
+        db = f"[tcp:{sec}]\nlabel = s:unix:X:\nsig = *:64:0:*:{r.choice(['mss', 'mtu'])}*{r.choice([1, 3, 7])},*:mss:{'df,id+' if ver == 4 else ''}:0\n"
+        ops.append("histq\tL:" + hx(db) + f"\tT:{ver}:{raw.hex()}:{syn}:35")
+    ans = core.run_impl(ops)
+    ctx.evaluations += len(ops)
+    for line, a in zip(ops, ans):
+        last = a.split(" ; ")[-1]
+        ctx.hist["peer-mss:" + (last if last.startswith(("ERR", "EXC", "HANG")) else "result")] += 1
+        if "EXC" in a or "HANG" in a or (last.startswith("ERR") and last != "ERR packet"):
+            ctx.fail(f"fingerprint_tcp(syn_mss=..) raised / answered {last!r} (neither a result nor PacketError)", op=line, impl=a)
 
 
 def uptime_part(ctx):
